@@ -168,9 +168,9 @@ def group_reads(M, net, rec, U, desc):
                               {"op": desc, "returned": len(got), "in_graph": len(exp)})
 
 
-def run_history(M, rec, U, ops, seq, rng, read_all=True):
+def run_history(M, rec, U, ops, seq, rng, read_all=True, subclass=False):
     net = M.Network()
-    if not read_all and rng.random() < 0.4:
+    if subclass or (not read_all and rng.random() < 0.4):
         from vf import userkinds as UK
 
         net = UK.Motorway()  # a user-defined Network subclass: the lookups are inherited
@@ -248,6 +248,16 @@ def run(M, rec, tier, seed, k, n):
             if rec.counters["histories"] in (3, 700):
                 rec.sample({"history": [s[2] for s in seq], "reads": "all lookups after every call"})
     rec.count("exhaustive_histories", rec.counters.get("histories", 0))
+    # the same on a user-defined Network subclass that keeps a lookup of its own fresh with the library's decorator on an
+    # overridden construction call: every pair of calls that involves origins, paths or single links
+    sub = [o_ for o_ in ops if o_[0].rstrip("!") in ("add_origin", "add_path", "add_link", "add_destination")]
+    i = 0
+    for seq in itertools.product(sub, repeat=2):
+        i += 1
+        if i % n != k or (tier == "quick" and i % 3):
+            continue
+        run_history(M, rec, U, ops, seq, rng, read_all=True, subclass=True)
+        rec.count("histories_on_a_network_subclass_all_pairs")
     # random, longer, with clashing names / shared objects and random read subsets
     for r in range(300 if tier == "quick" else 6000):
         Uc = Universe(M, clash=(r % 3 == 0), clones=(r % 5 == 1))
